@@ -108,7 +108,32 @@ def simple_filter(draw, allow_positional: bool = True) -> Dict[str, Any]:
 @st.composite
 def filter_case(draw) -> Dict[str, Any]:
     frame = draw(frame_desc())
-    mode = draw(st.sampled_from(["single", "composite", "composite", "zero_dur"]))
+    mode = draw(st.sampled_from(["single", "composite", "composite", "zero_dur", "order_sensitive"]))
+    pass_table = draw(st.sampled_from([True, True, False]))
+    if frame["variant"] == "replace":
+        pass_table = False
+    if mode == "order_sensitive" and frame["rows"]:
+        # a selective member first, then a positional one (n-th iteration present): the rows the first member keeps sit in
+        # later iterations, the rows it drops in the earliest one, so the members' order decides the result
+        first = draw(simple_filter(allow_positional=False).filter(lambda m: m["kind"] in ("name", "gpu", "cpu", "rank", "time")))
+        second = draw(st.sampled_from([{"kind": "first_iter"}, {"kind": "iter_index", "arg": 0}, {"kind": "iter_index", "arg": [0, 1]},
+                                       {"kind": "iter_index", "arg": 1}]))
+        frame["cols"]["iteration"] = True
+        its = draw(st.sampled_from([[3, 4, 7], [0, 1, 2], [5, 11], [10, 11, 12]]))
+        for r in frame["rows"]:
+            r.setdefault("iteration", its[0])
+        kept, _ = model_apply(first, frame["rows"], frame["cols"], pass_table, frame["variant"])
+        kept_ids = {r["index"] for r in kept}
+        for r in frame["rows"]:
+            late = r["index"] in kept_ids
+            if draw(st.integers(0, 9)) == 0:
+                late = not late  # some noise: the shape is usual, not guaranteed
+            r["iteration"] = draw(st.sampled_from(its[1:])) if late else its[0]
+        members = [first, second] + ([draw(simple_filter())] if draw(st.booleans()) else [])
+        flt = {"kind": "composite", "members": members, "perm": list(draw(st.permutations(list(range(len(members))))))}
+        return {"frame": frame, "filter": flt, "pass_table": pass_table}
+    if mode == "order_sensitive":
+        mode = "composite"
     if mode == "single":
         flt = draw(simple_filter())
     elif mode == "zero_dur":
@@ -118,10 +143,6 @@ def filter_case(draw) -> Dict[str, Any]:
         members = [draw(simple_filter()) for _ in range(k)]
         flt = {"kind": "composite", "members": members,
                "perm": list(draw(st.permutations(list(range(len(members))))))}
-    # whether the call passes the symbol table (composite passes it to every member)
-    pass_table = draw(st.sampled_from([True, True, False]))
-    if frame["variant"] == "replace":
-        pass_table = False
     return {"frame": frame, "filter": flt, "pass_table": pass_table}
 
 
@@ -318,6 +339,17 @@ def check(case: Dict[str, Any]) -> CaseInfo:
         for m in members:
             cur = run(m, cur)
         require(_ids(cur) == _ids(res), "composite:equals_sequence", lambda: f"{_ids(cur)} vs {_ids(res)}")
+        # does the order of the members matter here?  a positional member (n-th iteration present) placed after a member that
+        # removed every row of some earlier iteration sees a different set of iterations than the input has
+        if cols.get("iteration"):
+            rws_k, hc = rows, True
+            its0 = sorted({r["iteration"] for r in rows if r["iteration"] >= 0})
+            for m in members:
+                if m["kind"] in ("iter_index", "first_iter") and hc:
+                    its_k = sorted({r["iteration"] for r in rws_k if r["iteration"] >= 0})
+                    if its_k and its_k != its0 and its_k[0] != its0[0]:
+                        classes.append("positional_member_after_a_member_that_removed_the_first_iteration")
+                rws_k, hc = model_apply(memcpy_effective(m), rws_k, cols, pass_table, variant, hc)
         if row_local and members:
             classes.append("row_local_composite")
             # intersection of the members' own selections, in the drawn order
@@ -367,7 +399,7 @@ def view(case):
 
 def campaigns(tier: str) -> List[Campaign]:
     return [Campaign("filters", filter_case(), check, quick=4000, thorough=240000, quick_shards=8, fuzz_runs=80000,
-                     required_classes={"proper_subset": 0.15, "row_local_composite": 0.1, "name_on_decoded": 0.025,
+                     required_classes={"proper_subset": 0.15, "row_local_composite": 0.08, "positional_member_after_a_member_that_removed_the_first_iteration": 0.02, "name_on_decoded": 0.025,
                                        "name": 0.02, "gpu": 0.02, "memcpy": 0.02, "iter_index": 0.02, "time": 0.02,
                                        "filter_object_reused_with_other_table": 0.2},
                      sample_view=view)]
